@@ -21,7 +21,6 @@ package autodiff
 /* -------------------------------------------------------------------------- */
 import "fmt"
 import "encoding/json"
-import "math"
 import "reflect"
 /* -------------------------------------------------------------------------- */
 type ConstInt64 int64
@@ -109,12 +108,7 @@ func (obj ConstInt64) MarshalJSON() ([]byte, error) {
 /* math
  * -------------------------------------------------------------------------- */
 func (a ConstInt64) Equals(b ConstScalar, epsilon float64) bool {
-  v1 := a.GetFloat64()
-  v2 := b.GetFloat64()
-  return math.Abs(v1 - v2) < epsilon ||
-        (math.IsNaN(v1) && math.IsNaN(v2)) ||
-        (math.IsInf(v1, 1) && math.IsInf(v2, 1)) ||
-        (math.IsInf(v1, -1) && math.IsInf(v2, -1))
+  return a.GetInt64() == b.GetInt64()
 }
 /* -------------------------------------------------------------------------- */
 func (a ConstInt64) Greater(b ConstScalar) bool {
